@@ -10,6 +10,58 @@ COMMON_NOTE = ('Trusted: Coq 8.16.1 kernel, the hand-written Gallina model, Extr
 
 # id -> (technique, level text, level note, design ref)
 CLAIMED = {
+ 'C07': ('Coq proof (inverse-CDF step = half-open interval of length T_ij, zero-probability never sampled, chain length/head/range) + differential runs with injected and recorded draws',
+         'proof: for every cumulative row and draw the next state is the first column whose cumulative value strictly exceeds u; for a stochastic row the preimage of column k is the interval [c_(k-1), c_k) of length T[i, perm k], '
+         'so transitions with T_ij = 0 are never sampled; chains have N frames, start in the start state and stay in range (Coq theorems, draws as an explicit argument). Tie: JIT off with INJECTED draws at every breakpoint, its float '
+         'neighbours, midpoints, 0 and 1-2^-53; JIT on with RECORDED draws: whole chains of propagate_MCMC / propagate_tmat equal the model chain; cumulative matrix vs exact T within 1e-12; reproducibility.',
+         COMMON_NOTE + 'Generator uniformity trusted. Two defects repaired (fix: commits), one known finding (start=-1 sentinel).',
+         'DESIGN.md section 6 C07'),
+ 'C08': ('Coq proof (online counters = event extraction on the realised chain; histogram laws) + exact coupling to the generator state',
+         'proof (partial): the online waiting-time counter is a permutation of the event durations of the chain realised by the same draws, the transition-time counter of the durations from the last start-set visit (disjoint sets), '
+         'edges are multiples of the lag, bin k holds the fraction of events lasting k lags, the density integrates to one (Coq theorems); the distributional sentence reduces to C07 + generator uniformity (trusted). '
+         'Tie: seeds fixed, draws recorded, list/histogram/paths of the implementation compared with the model on the same draws.',
+         COMMON_NOTE + 'One defect repaired (unsorted list).',
+         'DESIGN.md section 6 C08'),
+ 'C09': ('Coq proof (time grid law, curve = diagonal of the exact power, power laws) + differential correspondence within 1e-10',
+         'proof: model times are exactly k*tau <= tmax (strictly increasing, empty above tmax), the curve entry is the diagonal of the k-th power (integer-scaled power = plain power), T^(a+b) = T^a T^b, powers of stochastic matrices stay stochastic; '
+         'the reference uses the plain macro trajectory (definitional). Tie: whole result dictionary for plain and lumped input vs exact powers of the exact (Hummer-Szabo) model; reference grid checked as the property states it; flags on threshold-free cases.',
+         COMMON_NOTE + 'The geomspace/around reference grid is checked, not modelled; float matrix_power within 1e-10.',
+         'DESIGN.md section 6 C09'),
+ 'C10': ('Coq proof (positivity/monotonicity of -tau/ln(lambda) in Coq Reals, rule case analysis, exact two-state eigenvalue) + exact residual checking of LAPACK output',
+         'proof (partial): -tau/ln(lambda) > 0 and strictly increasing on (0,1) (Coq Reals), the rule yields NaN or that positive value for real eigenvalues, lambda_2 = T00+T11-1 for two-state models (exact); '
+         'the spectrum is LAPACK\'s: every eigen-pair returned by the four solver functions is validated by the exact Gallina residual checker, ordering and count checked; implied timescales are compared with the rule applied to the validated eigenvalues (ln by libm) and with the exact lambda_2 for two-state models.',
+         COMMON_NOTE + 'Axioms: Coq standard-library real-number axioms (sig_forall_dec, sig_not_dec, functional_extensionality_dep, classic) in the two real-analysis theorems only. One defect repaired (masked value leak).',
+         'DESIGN.md section 6 C10'),
+ 'C12': ('Coq proof (order- and chunking-freedom of the exact reduction) + differential execution across JIT on/off and thread counts',
+         'proof (partial by nature): the exact sum behind the parallel kernels is invariant under permutation and chunking; everything else is runtime: the same calls are executed with NUMBA_DISABLE_JIT in {0,1}, NUMBA_NUM_THREADS in {1,3,16} (thorough: 2) and numba.set_num_threads(1,2,3,16) '
+         'and compared pairwise (integers identical, floats 1e-12 / 1e-9, same error kinds); in addition every other property runs its cases JIT on and off against one model.',
+         COMMON_NOTE + 'numba code generation and scheduling are outside any model.',
+         'DESIGN.md section 6 C12'),
+ 'C16': ('Coq proof (byte-level codec: number and table round trip, column order, limits, dtype rules) + bidirectional differential correspondence on real files',
+         'proof (partial): on a byte-level model of writer and reader, every integer table written with any header lines is read back identically, requested columns come in the requested order, limits give pieces of the listed lengths or are rejected, '
+         'the microstate reader returns the requested integer dtype (int16 default) and rejects float dtypes (Coq theorems); pandas/numpy are modelled: the tie compares the bytes the implementation writes with the model rendering and the tables both read.',
+         COMMON_NOTE + 'Two defects repaired (dtype ignored, CR in header).',
+         'DESIGN.md section 6 C16'),
+ 'C17': ('Coq proof (monotone and injective relabelling theorems for states, ranks, counts, coring, events, paths) + metamorphic runs over container forms, widths and relabellings',
+         'proof: a strictly increasing relabelling maps the state list and leaves ranks unchanged; an injective relabelling carries counts, cored trajectories, events and loop-erased paths along (Coq theorems); that every container form denotes the same trajectories is checked by running every analysis on '
+         'list / list of lists / 1-d / 2-d / list and tuple of arrays in all integer widths (uniform and mixed, narrow-first) / object, function and method, plain and lumped, and comparing bit-identically.',
+         COMMON_NOTE + 'One defect repaired (mixed integer widths).',
+         'DESIGN.md section 6 C17'),
+ 'C18': ('Coq proof (frame and determinism of calls on the aliasing model) + byte-snapshot histories with reseeding',
+         'proof (partial by nature): in the aliasing model a call reads argument values and allocates its results: arrays held before are unchanged after any history, results depend on argument values only; the tie snapshots every shared argument (buffers, dtypes, shapes, object slots) '
+         'around every call of random histories, repeats deterministic calls after reseeding all generators and randomised calls from equal seeds.',
+         COMMON_NOTE + 'That compiled kernels do not write through buffers is a runtime fact observed by snapshots only.',
+         'DESIGN.md section 6 C18'),
+ 'C19': ('Coq proof (chunking partition; per-trajectory composition by the C05/C16/C20 theorems) + CLI runs compared with API and exact model',
+         'proof (partial): the chunking helper returns consecutive non-empty chunks of at most the chunk size whose concatenation is the list; the CLI commands are compositions of pieces proved elsewhere (limits split, per-trajectory coring, per-column filter); click, files and figures are outside the model. '
+         'Tie: CliRunner (thorough: real subprocess) on generated files with 1..4 trajectories, outputs compared with the API and with the exact per-trajectory model; chunking exhaustively for n <= 40.',
+         COMMON_NOTE,
+         'DESIGN.md section 6 C19'),
+ 'C20': ('Coq proof (Gaussian filter with any normalised non-negative symmetric kernel: linear, constants, bounds, reversal; running mean = documented window) + differential correspondence within 1e-9',
+         'proof (partial): for every odd-length kernel (non-negative, normalised, symmetric) the edge-repeating filter preserves length, is linear, maps constants to themselves, stays within the bounds, commutes with reversal; the running mean equals the documented centred window with zeros outside, w=1 is the identity '
+         '(Coq theorems, exact rationals). That SciPy\'s kernel is the truncated Gaussian is validated numerically: the harness computes the weights, checks the kernel hypotheses and compares outputs column by column.',
+         COMMON_NOTE + 'exp by libm; SciPy internals trusted within 1e-9.',
+         'DESIGN.md section 6 C20'),
  'C02': ('Coq proof (constructor = rank in sorted labels, round trip, lumped views; isolation on an aliasing model) + differential op-sequence correspondence with alias matrix',
          'proof: the object reports the input back (all three label branches), states/index/counters, and a lumped object reports macro, micro and assignment, '
          'for every trajectory set / consistent lumping (Coq theorems about the model); isolation is a theorem about the aliasing model (accessors and constructor copy); '
@@ -91,6 +143,7 @@ for p in props:
     })
 na = [{'property_id': p['id'], 'reason': 'check not built yet (work in progress, see DESIGN.md section 10)'}
       for p in props if p['id'] not in CLAIMED]
+CLAIMED = dict(sorted(CLAIMED.items()))
 m = {
  'version': 1,
  'setup_cmd': './setup.sh',
